@@ -16,7 +16,7 @@ def frame_bytes(prog, body, d):
         name = c[1]
         if name.endswith("message::Message::to_frame"):
             ok = True
-        if name.endswith("::into") or name.endswith("From<humphrey_ws::frame::Frame>>::from"):
+        if name.endswith("::into") or (name.endswith("::from") and "From<humphrey_ws::frame::Frame>" in name):
             # Into<Vec<u8>> applied to a Frame
             if c[2] and _is_frame(c[2][0]):
                 ok = True
